@@ -71,7 +71,8 @@ def build(case):
                 clusters=['same', 'absent', 'curated', 'curated'][int(rng.integers(0, 4))],
                 spikeless=['none', 'first', 'middle', 'last'][int(rng.integers(0, 4))],
                 probes=bool(rng.random() < 0.35), wm=bool(rng.random() < 0.75), vec2d=bool(rng.random() < 0.25),
-                rate=[100., 30000., 0.05, 1. / 300][int(rng.integers(0, 4))],   # 0.05 -> 30-sample chunks, 1/300 -> 2-sample chunks (> 20 chunks) ties=bool(rng.random() < 0.3),
+                rate=[100., 30000., 0.05, 1. / 300][int(rng.integers(0, 4))],   # 0.05 -> 30-sample chunks, 1/300 -> 2-sample chunks (> 20 chunks)
+                ties=bool(rng.random() < 0.3),
                 shanks=[0, 2][int(rng.integers(0, 2))], ncdat_extra=int(rng.integers(0, 2)),
                 dtype_ids=['int32', 'uint32', 'uint16'][int(rng.integers(0, 3))],
                 dtype_times=['uint64', 'int64', 'float64', 'uint32'][int(rng.integers(0, 4))],   # float64: MATLAB-written sample numbers
@@ -81,6 +82,10 @@ def build(case):
         opts.update(nt=300, ns=900, dtype_ids='uint16', clusters='curated', far_ids=0, raw='none', features='none')
     opts.update(dtype_amps=['float64', 'float32'][int(rng.integers(0, 2))],
                 dtype_templates=['float32', 'float32', 'float64'][int(rng.integers(0, 3))])
+    if rng.random() < 0.04:
+        # very long recordings: sample indices beyond 2**32 (> 39.8 h at 30 kHz)
+        opts.update(n_samples=int(2 ** 32 + rng.integers(1, 10 ** 9)), raw='none', rate=30000.,
+                    dtype_times=['uint64', 'int64', 'float64'][int(rng.integers(0, 3))])
     if case.get('large'):
         # size-dependent code paths: > 1 MiB id files (> 262144 int32 spikes)
         opts.update(ns=300000, n_samples=400000, raw='none', features='none', far_ids=0, nc=6, nt=5, rate=30000.)
@@ -125,6 +130,19 @@ def build(case):
         spec.extra_files['temp_wh.dat'] = b'\x00' * 64
     if rng.random() < 0.3:
         spec.notes['cluster_probes'] = True
+    if rng.random() < 0.2:
+        spec.notes['template_scaling'] = [20.0, 0.5][int(rng.integers(0, 2))]   # display-only option of params.py
+    if spec.raw is None and rng.random() < 0.3:
+        # a dataset shipped without its raw data but with the spike-waveform subset extracted earlier
+        import io
+        nsub = int(rng.integers(2, max(3, spec.n_spikes // 2)))
+        sub_ids = np.sort(rng.permutation(spec.n_spikes)[:nsub]).astype(np.int64)
+        for fn, arr in (('spikes', sub_ids), ('channels', np.tile(np.arange(2, dtype=np.int32), (nsub, 1))),
+                        ('waveforms', rng.normal(size=(nsub, spec.nsw, 2)).astype(np.float32))):
+            bio = io.BytesIO()
+            np.save(bio, arr)
+            spec.extra_files['_phy_spikes_subset.%s.npy' % fn] = bio.getvalue()
+        spec.notes['subset_without_raw'] = True
     label = ['', 'lbl', '', 'a', 'n', 'clu', 't', 'probe00'][int(rng.integers(0, 8))]   # also labels that are prefixes of attribute names / extensions
     factor = [1, 2.5][int(rng.integers(0, 2))]
     return spec, opts, label, factor
@@ -147,7 +165,10 @@ def _run(case, ctx, d, which):
             np.save(os.path.join(src, 'cluster_probes.npy'), np.zeros(
                 int(spec.clusters.max()) + 1 if spec.curated else spec.n_templates, dtype=np.int32))
     from pathlib import Path
-    out = os.path.join(d, ['alf', 'alf out (é)', 'alf'][case['seed'][-1] % 3])
+    out = os.path.join(d, ['alf', 'alf out (é)', 'alf', 'mouse[07]*?', 'alf'][case['seed'][-1] % 5])     # also glob metacharacters in the path
+    if case['seed'][-1] % 10 == 3:
+        os.makedirs(out)
+        out = os.path.join(out, 'alf')
     if case['seed'][-1] % 2:
         out = Path(out)
     curated = spec.curated
@@ -215,6 +236,55 @@ def _run(case, ctx, d, which):
                               dict(f0, exc=rr.exc_name, stage='convert_again'), tb=rr.tb)
                 return
             m2 = rr.value
+        if case['seed'][-1] % 4 == 3 and case.get('source') != 'merged':
+            # history: the SAME creator object converts a second time, into another directory and with another unit
+            # factor; the second output is the one judged
+            ctx.cell('same_creator_other_factor')
+            if m2 is not None:
+                call(m2.close)
+            out = os.path.join(d, 'alf_other_factor')
+            factor = [2.34375e-06, 4][case['seed'][-1] % 8 == 3]
+            desc = dict(desc, factor=factor, history='same_creator_other_factor')
+            rr = call(c.convert, out, label=label, ampfactor=factor)
+            after = snapshot(src)
+            if not rr.ok:
+                ctx.violation('raised', desc, 'second convert() of the same creator raised %r' % rr.exc,
+                              dict(f0, exc=rr.exc_name, stage='convert_again'), tb=rr.tb)
+                return
+            m2 = rr.value
+        if case['seed'][-1] % 4 == 2 and case.get('source') != 'merged' and not label:
+            # history: export, curation goes on in the source (cluster ids are permuted among themselves), the dataset
+            # is loaded again and exported with force=True into the SAME output directory; judged against the
+            # dataset as it is now
+            ids_ = np.unique(spec.clusters)
+            if len(ids_) >= 2:
+                ctx.cell('reexport_after_curation')
+                if m2 is not None:
+                    call(m2.close)
+                call(m.close)
+                lut = dict(zip(ids_.tolist(), np.roll(ids_, -1).tolist()))
+                new = np.array([lut[int(x)] for x in spec.clusters.tolist()], dtype=spec.clusters.dtype)
+                spec.spike_clusters = new
+                np.save(os.path.join(src, spec._name('spike_clusters.npy')), spec._vec(new))
+                if spec.notes.get('cluster_probes'):      # (keep the harness-written per-cluster table consistent)
+                    np.save(os.path.join(src, 'cluster_probes.npy'), np.zeros(
+                        int(new.max()) + 1 if spec.curated else spec.n_templates, dtype=np.int32))
+                f0 = dict(f0, curated=bool(spec.curated), reexport=True)
+                desc = dict(desc, history='reexport_after_curation')
+                r = call(load_model, os.path.join(src, 'params.py'))
+                if not r.ok:
+                    ctx.violation('raised', desc, 'load_model(source) after curation raised %r' % r.exc, dict(f0, exc=r.exc_name, stage='load'), tb=r.tb)
+                    return
+                m = r.value
+                before = snapshot(src)
+                rr = call(EphysAlfCreator(m).convert, out, label=label, ampfactor=factor, force=True)
+                after = snapshot(src)
+                audit = []
+                if not rr.ok:
+                    ctx.violation('raised', desc, 're-export into the same directory (force=True) raised %r' % rr.exc,
+                                  dict(f0, exc=rr.exc_name, stage='convert_again'), tb=rr.tb)
+                    return
+                m2 = rr.value
         try:
             if which == 'C13':
                 _oracle_c13(ctx, desc, f0, spec, src, out, m, m2, label, before, after, audit)
@@ -232,7 +302,7 @@ def alf_files(out, label):
     """{(object, attribute): path} for files of the four ALF objects; also the list of badly named ones."""
     table, bad = {}, []
     for obj in REQUIRED:
-        for p in sorted(glob.glob(os.path.join(out, obj + '.*'))):
+        for p in sorted(glob.glob(os.path.join(glob.escape(out), obj + '.*'))):
             parts = os.path.basename(p).split('.')
             if label:
                 if len(parts) != 4 or parts[2] != label:
